@@ -8,6 +8,7 @@ package main
 // different goroutines; then the requested branch task(s) are answered, completion is awaited, and the losing events
 // are delivered again ("late"). Every delivery runs under a deadline. Besides that: enforced replays of the two Lean
 // witness schedules (`wit`: the winner is held before it notifies the loser while the loser's own event is delivered;
+// `wit2`: two alternatives are held at the entry of the transformer and released together, racing the compare-and-swap;
 // `wit0`: a forked flow is held before its first select while the winner runs the whole transformer) and, in the
 // thorough tier, seeded perturbation of all schedule points.
 
@@ -20,6 +21,7 @@ import (
 	"time"
 
 	bpmn "github.com/olive-io/bpmn/v2"
+	"github.com/olive-io/bpmn/v2/pkg/event"
 
 	"verifharness/internal/eng"
 	"verifharness/internal/rec"
@@ -84,6 +86,7 @@ func c06cases(tier string) []c06case {
 			for l := 0; l < k; l++ {
 				if l != w {
 					cs = append(cs, c06case{k: k, mode: "wit", seq: []int{w, l}})
+					cs = append(cs, c06case{k: k, mode: "wit2", seq: []int{w, l}})
 				}
 			}
 		}
@@ -127,7 +130,7 @@ func c06gid() string {
 }
 
 const (
-	c06deliverDeadline = 400 * time.Millisecond
+	c06deliverDeadline = 300 * time.Millisecond
 	c06completeWait    = 300 * time.Millisecond
 	c06lateDeliveries  = 6
 )
@@ -176,7 +179,7 @@ func c06run(out *rec.Out, c c06case, rng *rec.Rng, stats map[string]int) {
 			}
 		})
 		defer bpmn.VerifSetHook(nil)
-	case c.mode == "wit" || c.perturb > 0:
+	case c.mode == "wit" || c.mode == "wit2" || c.perturb > 0:
 		ctl = sched.Install()
 		defer ctl.Remove()
 	}
@@ -195,13 +198,52 @@ func c06run(out *rec.Out, c c06case, rng *rec.Rng, stats map[string]int) {
 	stats["cases"]++
 	stats[fmt.Sprintf("k%d_%s_len%d_p%d", c.k, c.mode, len(c.seq), c.perturb)]++
 
-	deliver := func(e int) bool { return in.Deliver(c06kinds[e], c06names[e], c06deliverDeadline) }
 	quiesce := func() bool {
 		if !in.Quiesce(4 * timeSecond) {
 			in.Note("obs noquiesce")
 			return false
 		}
 		return true
+	}
+	// A delivery counts as blocked only if it has not returned although the whole process is quiescent (then nothing
+	// can ever unblock it); the deadline alone just bounds how long the fast path waits, so a loaded machine cannot
+	// turn a slow call into a "blocked" one.
+	var qmu sync.Mutex
+	deliver := func(e int) bool {
+		var ev event.IEvent
+		if c06kinds[e] == "message" {
+			ev = event.NewMessageEvent(c06names[e], nil)
+		} else {
+			ev = event.NewSignalEvent(c06names[e])
+		}
+		in.Op("deliver %s %s", c06kinds[e], c06names[e])
+		done := make(chan struct{})
+		go func() {
+			defer func() {
+				if r := recover(); r != nil {
+					in.Note("obs panic %v", r)
+				}
+				close(done)
+			}()
+			in.Proc.ConsumeEvent(ev)
+		}()
+		select {
+		case <-done:
+			in.Note("obs ret deliver %s returned", c06names[e])
+			return true
+		case <-time.After(c06deliverDeadline):
+		}
+		qmu.Lock() // Quiesce is not reentrant (conc mode delivers from several goroutines)
+		in.Quiesce(4 * timeSecond)
+		qmu.Unlock()
+		select {
+		case <-done:
+			in.Note("obs ret deliver %s returned", c06names[e])
+			return true
+		default:
+			in.Note("obs ret deliver %s blocked", c06names[e])
+			return false
+		}
 	}
 
 	quiesce()
@@ -255,6 +297,20 @@ func c06run(out *rec.Out, c c06case, rng *rec.Rng, stats map[string]int) {
 		deliver(c.seq[1])
 		quiesce()
 		ctl.Release("ebg.transformer.before_notify")
+	case "wit2":
+		// both alternatives are held at the entry of the transformer (`ebg.transformer.enter`) and released together:
+		// the compare-and-swap itself is raced
+		ctl.Hold("ebg.transformer.enter")
+		in.NoWait = true
+		deliver(c.seq[0])
+		deliver(c.seq[1])
+		in.NoWait = false
+		for i := 0; i < 400 && ctl.Hits("ebg.transformer.enter") < 2; i++ {
+			time.Sleep(5 * time.Millisecond)
+		}
+		in.Note("note wit2 held=%d", ctl.Hits("ebg.transformer.enter"))
+		quiesce()
+		ctl.Release("ebg.transformer.enter")
 	case "wit0":
 		// Lean witness `lateSelectSched`: alternative 0's event is delivered and its flow runs the whole transformer
 		// while the other flows have not evaluated their select yet; then they are released.
@@ -273,9 +329,15 @@ func c06run(out *rec.Out, c c06case, rng *rec.Rng, stats map[string]int) {
 		in.AnswerOK(q, nil)
 		quiesce()
 	}
+	// completion: WaitUntilComplete under a timeout, or the CeaseFlowTrace already recorded at quiescence
 	complete := in.WaitComplete(c06completeWait)
 	in.Note("obs waitcomplete %d", rec.B(complete))
 	quiesce()
+	for _, l := range in.Lines() {
+		if l == "obs cease" {
+			complete = true
+		}
+	}
 
 	in.Note("phase late")
 	var losers []int
